@@ -406,3 +406,75 @@ def m_jaro_winkler(I, st, inst, args):
     v = z3.FP(nm, z3.Float64())
     constrain_once(st, nm, z3.And(z3.Not(z3.fpIsNaN(v)), z3.fpGEQ(v, z3.FPVal(0.0, z3.Float64())), z3.fpLEQ(v, z3.FPVal(1.0, z3.Float64()))))
     return v
+
+
+# ---------------------------------------------------------------------------- syn::Meta: the path is shared by the three forms
+def _child_name(self, parent, t, variant, field):
+    n = t.adt["name"] if t.adt else ""
+    if n == "syn::Meta" and variant == "Path" and field == "0":
+        return parent + ".path"
+    if n in ("syn::MetaList", "syn::MetaNameValue") and field == "path" and (parent.endswith(".List.0") or parent.endswith(".NameValue.0")):
+        return parent.rsplit(".", 2)[0] + ".path"
+    return None
+
+
+def _digits_content(self, I, st, name, kind):
+    """decimal digit strings as symbolic bytes of decided length (syn guarantees [0-9]+ for base10_digits of integers)"""
+    from .lazy import decide_len, constrain_once
+    if kind != "LitInt":
+        return None
+    lo, hi = self.digits_bounds(name)
+    n = decide_len(I, st, name, lo, hi)
+    bs = []
+    for i in range(n):
+        b = z3.BitVec("%s[%d]" % (name, i), 8)
+        constrain_once(st, "%s[%d]" % (name, i), z3.And(z3.UGE(b, 48), z3.ULE(b, 57)))
+        bs.append(b)
+    return ByteSeq(bs)
+
+
+def _digits_bounds(self, name):
+    return (1, 2)
+
+
+SynPolicy.digits_content = _digits_content
+SynPolicy.digits_bounds = _digits_bounds
+SynPolicy.child_name = _child_name
+
+
+@model("syn::Meta::path")
+def m_meta_path(I, st, inst, args):
+    from .lazy import lazy_cell
+    from vlib.view import field_index
+    p = args[0]
+    v = I.read(st, p, expand_scalar=False)
+    ret = I.types[inst.sig[-1]]
+    if isinstance(v, Lazy):
+        return Ptr(lazy_cell(I, st, v.name + ".path", ret.elem))
+    if isinstance(v, Agg):
+        mt = I.types[I.pointee(inst.sig[0])]
+        if v.v == 0:
+            return Ptr(p.cell, p.path + (("V", 0), 0))
+        inner_t = I.types[mt.adt["variants"][v.v]["fields"][0]["ty"]]
+        idx = [i for i, f in enumerate(inner_t.variant_fields(0)) if f["name"] == "path"][0]
+        return Ptr(p.cell, p.path + (("V", v.v), 0, idx))
+    raise Unsupported("Meta::path of %r" % (v,))
+
+
+@model("darling::error::kind::did_you_mean::<*>", opt="no_dym")
+def m_did_you_mean_opaque(I, st, inst, args):
+    """suggestion lookup as an uninterpreted function of the unknown name (used by properties that are not about suggestions)"""
+    f = str_of(I, st, args[0])
+    return Lazy("dym(%s)" % (f if isinstance(f, str) else tosym(f).sexpr()), inst.sig[-1])
+
+
+def _syn_variants(self, I, st, lz, t):
+    """bound the nesting of invisible groups in symbolic expressions"""
+    if t.adt and t.adt["name"] == "syn::Expr":
+        depth = getattr(self, "group_depth", 1)
+        if lz.name.count(".Group.0.expr") >= depth:
+            return [i for i, v in enumerate(t.adt["variants"]) if v["name"] != "Group"]
+    return None
+
+
+SynPolicy.variants = _syn_variants
